@@ -4,6 +4,7 @@
 use std::cmp::Ordering;
 
 use hvcommon::{Value, guarded, json};
+use lattices::ght::colt::ColtForestNode;
 use lattices::ght::lattice::{DeepJoinLatticeBimorphism, GhtCartesianProductBimorphism};
 use lattices::ght::{GeneralizedHashTrieNode, GhtPrefixIter};
 use lattices::{GhtType, IsBot, LatticeBimorphism, Merge};
@@ -29,6 +30,8 @@ trait Trie: Clone + Default {
     /// GhtCartesianProductBimorphism at the roots, collected into a trie with NKO key columns
     fn cart(&self, o: &Self) -> Vec<Row>;
     const NKO: usize;
+    /// ColtForestNode::force on a clone: rows of the forced trie (Some) or None (inner nodes)
+    fn force(&self) -> Value;
 }
 
 fn sorted(mut rows: Vec<Row>) -> Vec<Row> {
@@ -43,6 +46,12 @@ macro_rules! u32ref {
 macro_rules! impl_trie {
     ($ty:ty; $($i:tt $v:ident),+; $( $plen:literal => ($($pi:tt),*) ),* ;
      join $jty:ty, ($($jv:ident),+); cart $cty:ty, $nko:literal, ($($cv:ident),+) ) => {
+        impl_trie!($ty; $($i $v),+; $( $plen => ($($pi),*) ),* ;
+                   join $jty, ($($jv),+); cart $cty, $nko, ($($cv),+); force |_t| json!("unsupported"));
+    };
+    ($ty:ty; $($i:tt $v:ident),+; $( $plen:literal => ($($pi:tt),*) ),* ;
+     join $jty:ty, ($($jv:ident),+); cart $cty:ty, $nko:literal, ($($cv:ident),+);
+     force |$ft:ident| $fbody:expr ) => {
         impl Trie for $ty {
             fn insert(&mut self, r: &[u32]) -> bool {
                 GeneralizedHashTrieNode::insert(self, var_expr!($(r[$i]),+))
@@ -88,6 +97,10 @@ macro_rules! impl_trie {
                 out.recursive_iter().map(|var_args!($($cv),+)| vec![$(*$cv),+]).collect()
             }
             const NKO: usize = $nko;
+            fn force(&self) -> Value {
+                let $ft = self;
+                $fbody
+            }
         }
     };
 }
@@ -114,7 +127,12 @@ impl_trie!(K1V2; 0 a, 1 b, 2 c; 0 => (), 1 => (0), 2 => (0, 1), 3 => (0, 1, 2);
 impl_trie!(K3V1; 0 a, 1 b, 2 c, 3 d; 0 => (), 1 => (0), 2 => (0, 1), 3 => (0, 1, 2), 4 => (0, 1, 2, 3);
            join var_type!(u32, u32, u32, u32, u32), (a, b, c, d, e); cart C8, 4, (a, b, c, d, e, f, g, h));
 impl_trie!(K0V2; 0 a, 1 b; 0 => (), 1 => (0), 2 => (0, 1);
-           join var_type!(u32, u32, u32, u32), (a, b, c, d); cart C4, 2, (a, b, c, d));
+           join var_type!(u32, u32, u32, u32), (a, b, c, d); cart C4, 2, (a, b, c, d);
+           force |t| match ColtForestNode::force(t.clone()) {
+               None => json!({"optrows": null}),
+               Some(f) => json!({"optrows": sorted(f.recursive_iter().map(|var_args!(a, b)| vec![*a, *b]).collect()),
+                                 "forced_height": GeneralizedHashTrieNode::height(&f)}),
+           });
 
 pub fn shapes() -> Value {
     json!([
@@ -165,6 +183,7 @@ fn history<T: Trie>(ops: &[Value]) -> Value {
             "eq" => guarded(|| json!({"b": regs[w].eq(&regs[1 - w])})),
             "join" => json!({"rows": sorted(regs[w].join(&regs[1 - w]))}),
             "cart" => json!({"rows": sorted(regs[w].cart(&regs[1 - w]))}),
+            "force" => regs[w].force(),
             "height" => json!({"n": regs[w].height()}),
             "is_bot" => json!({"b": regs[w].is_bot()}),
             _ => json!({"bad_op": name}),
